@@ -1,5 +1,6 @@
 import FH.Driver.Rules
 import FH.World
+import FH.DwarfSpec
 namespace FH.Driver
 open FH
 
@@ -58,16 +59,7 @@ structure ArchIO (A : Arch) where
   parseRegs : List (String × String) → Option A.Regs
   showOut : Out A.Regs → String
   showRegs : A.Regs → String
-
-def ioX64 : ArchIO archX64 where
-  parseRegs := parseRegsX64
-  showOut := showOutX64
-  showRegs := showRegsX64
-
-def ioA64 : ArchIO archA64 where
-  parseRegs := parseRegsA64
-  showOut := showOutA64
-  showRegs := showRegsA64
+  specExpect : Row → Bool → A.Regs → Mem → Option String
 
 structure WState (A : Arch) where
   n : Nat
@@ -132,6 +124,63 @@ def pathTag (A : Arch) (N : Nat) (u : Unw) (c : Cache A.Rule) (addr : FrameAddr)
               | .ok _ _ => "row-generic-ok"
               | .err _ => "row-generic-err"
 
+/-- The row the module's DWARF data yields for a call, if any. -/
+def rowFor (u : Unw) (addr : FrameAddr) : Option Row :=
+  match findModule u.mods addr.lookup with
+  | none => none
+  | some (i, rel) =>
+    match u.mods[i]? with
+    | none => none
+    | some m =>
+      match m.data with
+      | .none => none
+      | .dwarf pres fdes =>
+        match dwarfLookup pres fdes m.baseSvma rel with
+        | .row r => some r
+        | _ => none
+
+/-- What C05 demands of a call on x86-64 when the hypotheses of its theorems hold
+(`C05_x64_compressed_rule_is_dwarf_step`, `C05_x64_generic_is_dwarf_step`,
+`C05_x64_undefined_ra_ends_stack`): the expected answer, or `none` outside their domain. -/
+def specExpectX64 (row : Row) (first : Bool) (regs : RegsX64) (mem : Mem) : Option String :=
+  if row.ra = .undefined then some ("done " ++ showRegsX64 regs)
+  else
+    match dwarfSpec row regs.sp regs.bp regs.ip mem with
+    | .step ra cfa fp' =>
+      let inRange : Bool := decide (0 ≤ cfa) && decide (cfa < 18446744073709551616)
+      let adv : Bool := !(decide (cfa = regs.sp) && decide (ra = regs.ip))
+      let ok : Bool :=
+        match translateX64 row with
+        | some rule =>
+          inRange && decide (ra ≠ 0) && adv &&
+            (if rule = .useFramePointer then decide (regs.bp ≠ 0) && decide ((regs.sp : Int) < cfa) else true)
+        | none => inRange && adv && (first || decide ((regs.sp : Int) < cfa)) && decide (ra ≠ 0)
+      if ok then some ("frame:" ++ toHex ra ++ " " ++ showRegsX64 (afterX64 regs ra cfa.toNat fp'))
+      else none
+    | _ => none
+
+/-- Same for aarch64 (`C05_a64_*`). -/
+def specExpectA64 (row : Row) (first : Bool) (regs : RegsA64) (mem : Mem) : Option String :=
+  match dwarfSpec row regs.sp regs.fp regs.lr mem with
+  | .step raRaw cfa fp' =>
+    let inRange : Bool := decide (0 ≤ cfa) && decide (cfa < 18446744073709551616)
+    let raOk : Bool := decide (strip regs.mask raRaw ≠ 0)
+    let isOffset : Bool := match row.ra with | .offset _ => true | _ => false
+    let fpBased : Bool := match row.cfa with | .regOff .fp _ => true | _ => false
+    let ok : Bool :=
+      match translateA64 row with
+      | some _ =>
+        inRange && raOk && (first || (decide ((regs.sp : Int) < cfa) && isOffset)) &&
+          (!fpBased || (decide (fp' ≠ 0) && decide (regs.fp < fp') && decide ((regs.sp : Int) < cfa)))
+      | none =>
+        inRange && raOk && (first || (decide ((regs.sp : Int) < cfa) && decide (row.fp ≠ .undefined)))
+    if ok then
+      some ("frame:" ++ toHex (strip regs.mask raRaw) ++ " " ++
+        showRegsA64 (afterA64 regs raRaw cfa.toNat fp'))
+    else none
+  | .endOfStack => some ("done " ++ showRegsA64 regs)   -- DWARF: return address undefined = root
+  | _ => none
+
 def handleWorld (A : Arch) (io : ArchIO A) (st : WState A) (cmd : String)
     (fs : List (String × String)) : Option (WState A × String) :=
   if cmd == "mod" then do
@@ -185,6 +234,9 @@ def handleWorld (A : Arch) (io : ArchIO A) (st : WState A) (cmd : String)
     pure ({ st with caches := assocSet st.caches cid c' },
       io.showOut out ++ " " ++ showStats c'.stats ++ " t=" ++
         (if touchesSections A st.n u c addr then "1" else "0") ++
+        " spec=" ++ (match (rowFor u addr).bind (fun r => io.specExpect r (!addr.isReturn) regs mem) with
+          | some e => e.replace " " "|"
+          | none => "-") ++
         " br=" ++ pathTag A st.n u c addr regs mem)
   else if cmd == "iter" then do
     let u ← List.lookup (← lookup fs "u") st.unws
@@ -199,5 +251,18 @@ def handleWorld (A : Arch) (io : ArchIO A) (st : WState A) (cmd : String)
     pure ({ st with caches := assocSet st.caches cid c' },
       "items=" ++ ",".intercalate items ++ " " ++ io.showRegs it.regs ++ " " ++ showStats c'.stats)
   else none
+
+def ioX64 : ArchIO archX64 where
+  parseRegs := parseRegsX64
+  showOut := showOutX64
+  showRegs := showRegsX64
+  specExpect := specExpectX64
+
+def ioA64 : ArchIO archA64 where
+  parseRegs := parseRegsA64
+  showOut := showOutA64
+  showRegs := showRegsA64
+  specExpect := specExpectA64
+
 
 end FH.Driver
